@@ -9,7 +9,7 @@ from pyvc.dsl import A, tup
 from pyvc.vals import S, PySeq, Fixed
 from . import worlds
 from .views import (cb_present, cb_val, issued_ok, member, val, transport, pending, connected, owns, struct, i1, pend_ok, cb_ok, inv_m, nonempty,
-                    member_rel, vals_kept, rooms, COUNTER, ZERO)
+                    member_rel, vals_kept, rooms, COUNTER, outstanding, wire_value)
 
 W = worlds.SERVER
 ROOMS = ('manager', 'rooms')
@@ -245,21 +245,177 @@ def generate_ack_id_contract():
         s, k = z3.Consts('q_s q_k', V)
         d = {
             'fresh-among-outstanding': z3.Not(cb_present(c.pre, sid, rid)),
-            'not-the-counter-slot': rid != ZERO,
+            'is-a-positive-integer': z3.And(smt.kind(rid) == smt.K_INT, smt.int_of(rid) >= 1),
             'registered': z3.And(cb_present(c.post, sid, rid), cb_val(c.post, sid, rid) == cb),
             'others-kept': z3.ForAll([s, k], z3.Implies(z3.And(cb_present(c.pre, s, k)),
                                                         z3.And(cb_present(c.post, s, k), cb_val(c.post, s, k) == cb_val(c.pre, s, k)))),
-            'nothing-else-added': z3.ForAll([s, k], z3.Implies(z3.And(cb_present(c.post, s, k), z3.Not(cb_present(c.pre, s, k))),
-                                                               z3.And(s == sid, z3.Or(k == rid, k == ZERO)))),
+            'nothing-else-added': z3.ForAll([s, k], z3.Implies(z3.And(outstanding(c.post, s, k), z3.Not(outstanding(c.pre, s, k))),
+                                                               z3.And(s == sid, k == rid))),
         }
         d.update(cb_ok(c.post))
         return d
     return Contract(
         target=BM + '_generate_ack_id', schema=W, self_obj='manager', params={'sid': 'V', 'callback': 'V'},
-        requires=lambda c: dict(cb_ok(c.pre), **{'callback-is-not-the-counter': c.a.callback != COUNTER}),
+        requires=lambda c: dict(cb_ok(c.pre), **{'callback-is-not-the-counter': c.a.callback != COUNTER, 'callback-is-truthy': z3.And(smt.truthy(c.a.callback), c.a.callback != NONE)}),
         cases=[Case('issues', result='I', post=post)],
         modifies=[CBS, NEXT], props=['C06'],
         must_fail=lambda c: {'issues:claims-id-1': c.res_v() == smt.box_int(z3.IntVal(1))})
+
+
+def connect_contract():
+    def dupc(c):
+        r = rooms(c.pre)
+        ns, e = c.a.namespace, c.a.eio_sid
+        return z3.And(r.c['dom'][ns], r.c['.dom'][ns][NONE], r.c['..idom'][ns][NONE][e])
+
+    def post_new(c):
+        ns, e = c.a.namespace, c.a.eio_sid
+        r = c.res_v()
+        iss0, iss1 = c.pre.get('g', 'issued'), c.post.get('g', 'issued')
+        x = z3.Const('q_x', V)
+        d = {
+            'sid-never-used-before': z3.Not(iss0.c['.'][r]),
+            'sid-not-none': r != NONE,
+            'member': member_rel(c.pre, c.post, added=lambda n, ro, s: z3.And(n == ns, s == r, z3.Or(ro == NONE, ro == r))),
+            'transports-kept': vals_kept(c.pre, c.post),
+            'owns': owns(c.post, e, ns, r),
+            'connected': connected(c.post, ns, r),
+            'issued': z3.ForAll([x], iss1.c['.'][x] == z3.Or(iss0.c['.'][x], x == r)),
+            'nonempty-kept': z3.Implies(z3.And(*nonempty(c.pre).values()), z3.And(*nonempty(c.post).values())),
+        }
+        d.update(inv_m(c.post))
+        d.update(issued_ok(c.post))
+        return d
+    return Contract(
+        target=BM + 'connect', schema=W, self_obj='manager', params={'eio_sid': 'V', 'namespace': 'V'},
+        requires=lambda c: dict(inv_m(c.pre), **dict(issued_ok(c.pre), **{'transport-not-none': c.a.eio_sid != NONE})),
+        cases=[Case('already-connected', when=dupc, result=lambda c: S(NONE),
+                    post=lambda c: dict({'some-sid-owns-the-transport': owns(c.pre, c.a.eio_sid, c.a.namespace,
+                                                                             rooms(c.pre).c['..inv'][c.a.namespace][NONE][c.a.eio_sid]),
+                                         'membership-unchanged': member_rel(c.pre, c.post), 'transports-kept': vals_kept(c.pre, c.post),
+                                         'nonempty-kept': z3.Implies(z3.And(*nonempty(c.pre).values()), z3.And(*nonempty(c.post).values()))},
+                                        **dict(inv_m(c.post), **issued_ok(c.post)))),
+               Case('new-session', when=lambda c: z3.Not(dupc(c)), result='V', post=post_new)],
+        modifies=[ROOMS, ('g', 'issued')], props=['C03', 'C04', 'C16'], inline=[BM + 'basic_enter_room'],
+        must_fail=lambda c: {'new-session:claims-no-personal-room': z3.Not(member(c.post, c.a.namespace, c.res_v(), c.res_v()))})
+
+
+def trigger_callback_contract(target='manager.Manager.trigger_callback', also=('async_manager.AsyncManager.trigger_callback',)):
+    from pyvc.dsl import log_grew, entry_is
+
+    def known(c):
+        return outstanding(c.pre, c.a.sid, c.a.id)
+
+    def popped(c):
+        sid, id_ = c.a.sid, c.a.id
+        s, k = z3.Consts('q_s q_k', V)
+        cb0, cb1 = c.pre.get(*CBS), c.post.get(*CBS)
+        return {
+            'entry-removed': z3.Not(cb_present(c.post, sid, id_)),
+            'others-kept': z3.ForAll([s, k], z3.Implies(z3.Not(z3.And(s == sid, k == id_)),
+                                                        z3.And(cb_present(c.post, s, k) == cb_present(c.pre, s, k),
+                                                               cb_val(c.post, s, k) == cb_val(c.pre, s, k)))),
+            'sids-kept': z3.ForAll([s], cb1.c['dom'][s] == cb0.c['dom'][s]),
+        }
+
+    def invoked(c, with_result=False):
+        pre, post_ = c.pre.get('g', 'calls'), c.post.get('g', 'calls')
+        d = {'callback-invoked-once': log_grew(pre, post_, 1),
+             'with-the-acknowledged-arguments': entry_is(c, post_, pre.c['len'], fn=cb_val(c.pre, c.a.sid, c.a.id), args=c.vals['data'])}
+        d.update(popped(c))
+        return d
+    return Contract(
+        target=target, also=also, schema=W, self_obj='manager', params={'sid': 'V', 'id': 'V', 'data': ('seq', 'list')},
+        requires=lambda c: dict(cb_ok(c.pre), **{'id-came-off-the-wire': wire_value(c.a.id)}),
+        cases=[
+            Case('outstanding', when=known, post=invoked, group='k'),
+            Case('outstanding.callback-raises', when=known, kind='raise', exc='Exception', post=invoked, group='kx'),
+            Case('unknown-or-used-id', when=lambda c: z3.Not(known(c)), update=lambda c: None),
+        ],
+        modifies=[CBS, ('g', 'calls')], props=['C06'],
+        must_fail=lambda c: {'outstanding:claims-entry-kept': cb_present(c.post, c.a.sid, c.a.id)})
+
+
+def is_room_list(room):
+    return z3.Or(smt.kind(room) == smt.K_LIST, smt.kind(room) == smt.K_TUPLE)
+
+
+def room_domain(room):
+    """rooms are hashable non-sequence names, or non-empty lists/tuples of them (C03's domain)"""
+    return z3.And(smt.kind(room) != smt.K_DICT, smt.kind(room) != smt.K_BYTES,
+                  z3.Implies(is_room_list(room), smt.vlen(room) >= 1))
+
+
+def addressed(st, ns, room, s):
+    """s is a member of at least one addressed room (room None holds the whole namespace)"""
+    p = z3.Int('ad_p')
+    return z3.If(is_room_list(room),
+                 z3.Exists([p], z3.And(p >= 0, p < smt.vlen(room), member(st, ns, smt.vseq(room)[p], s))),
+                 member(st, ns, room, s))
+
+
+def get_participants_contract():
+    from pyvc.loops import GenSeq
+    from pyvc.model import SV, MapT, Leaf
+
+    def inv(lc):
+        ns, room = lc.t('namespace'), lc.t('room')
+        P = lc.map('participants')
+        R = smt.vseq(room)
+        s = z3.Const('gp_s', V)
+        p = z3.Int('gp_p')
+        st = lc.entry
+        return {
+            'sound': z3.ForAll([s], z3.Implies(P.c['dom'][s], z3.Exists([p], z3.And(p >= 0, p <= lc.i, member(st, ns, R[p], s))))),
+            'complete': z3.ForAll([s, p], z3.Implies(z3.And(p >= 0, p <= lc.i, member(st, ns, R[p], s)), P.c['dom'][s])),
+            'transports': z3.ForAll([s], z3.Implies(P.c['dom'][s], P.c['.'][s] == transport(st, ns, s))),
+        }
+
+    def post(c):
+        ns, room = c.a.namespace, c.a.room
+        P = c.result.sv
+        s = z3.Const('gp_s', V)
+        return {
+            'only-members-of-addressed-rooms': z3.ForAll([s], z3.Implies(P.c['dom'][s], addressed(c.pre, ns, room, s))),
+            'every-member-of-an-addressed-room': z3.ForAll([s], z3.Implies(addressed(c.pre, ns, room, s), P.c['dom'][s])),
+            'with-their-transport': z3.ForAll([s], z3.Implies(P.c['dom'][s], P.c['.'][s] == transport(c.pre, ns, s))),
+            'yields-pairs': z3.BoolVal(c.result.what == 'items'),
+        }
+    return Contract(
+        target=BM + 'get_participants', schema=W, self_obj='manager', params={'namespace': 'V', 'room': 'V'},
+        requires=lambda c: dict(struct(c.pre), **dict(i1(c.pre), **{'dom.room': room_domain(c.a.room)})),
+        cases=[Case('participants', post=post, result_fresh=lambda c: GenSeq('items', SV.fresh(MapT(Leaf('V')), 'participants')))],
+        loops={0: LoopSpec(inv, mod_vars=['participants'])},
+        modifies=[], props=['C03'],
+        must_fail=lambda c: {'participants:claims-nobody': c.result.sv.c['dom'] == z3.K(V, z3.BoolVal(False))})
+
+
+def close_room_contract():
+    def inv(lc):
+        ns, room = lc.t('namespace'), lc.t('room')
+        a, r, s = q3()
+        d = {'member': z3.ForAll([a, r, s], member(lc.cur, a, r, s) == z3.And(member(lc.entry, a, r, s), z3.Not(z3.And(a == ns, r == room, lc.done[s])))),
+             'transports-kept': vals_kept(lc.entry, lc.cur),
+             'nonempty-kept': z3.Implies(z3.And(*nonempty(lc.entry).values()), z3.And(*nonempty(lc.cur).values())),
+             'I1-kept': z3.Implies(room != NONE, z3.And(*i1(lc.cur).values()))}
+        d.update(struct(lc.cur))
+        return d
+
+    def post(c):
+        ns, room = c.a.namespace, c.a.room
+        d = {'member': member_rel(c.pre, c.post, removed=lambda a, r, s: z3.And(a == ns, r == room)),
+             'transports-kept': vals_kept(c.pre, c.post),
+             'nonempty-kept': z3.Implies(z3.And(*nonempty(c.pre).values()), z3.And(*nonempty(c.post).values())),
+             'I1-kept': z3.Implies(room != NONE, z3.And(*i1(c.post).values()))}
+        d.update(struct(c.post))
+        return d
+    return Contract(
+        target=BM + 'basic_close_room', schema=W, self_obj='manager', params={'room': 'V', 'namespace': 'V'},
+        requires=lambda c: dict(struct(c.pre), **dict(i1(c.pre), **{'dom.single-room': z3.And(room_domain(c.a.room), z3.Not(is_room_list(c.a.room)))})),
+        cases=[Case('closes', post=post)],
+        loops={0: LoopSpec(inv, mod_state=[ROOMS])},
+        modifies=[ROOMS], props=['C03'],
+        must_fail=lambda c: {'closes:claims-nothing-changed': member_rel(c.pre, c.post)})
 
 
 def register(reg):
@@ -272,3 +428,7 @@ def register(reg):
     reg.add(get_rooms_contract())
     reg.add(basic_disconnect_contract())
     reg.add(generate_ack_id_contract())
+    reg.add(connect_contract())
+    reg.add(trigger_callback_contract())
+    reg.add(get_participants_contract())
+    reg.add(close_room_contract())
